@@ -102,6 +102,8 @@ OrigIndex(G, w, p, at) ==
 (* assertions and left recursion, where the derivation is unique.          *)
 (***************************************************************************)
 RECURSIVE Items(_, _, _, _, _, _), CatItems(_, _, _, _, _, _, _), ApplyOps(_, _, _, _, _, _, _)
+RECURSIVE PrattTrees(_, _, _, _, _, _), BranchSeqs(_, _, _, _, _, _, _, _, _, _, _, _)
+RECURSIVE RightSpineOK(_, _, _, _, _), LeftSpineOK(_, _, _, _, _), ConsistentCand(_, _, _, _)
 
 RuleNode(G, ri, its) ==
   LET res == ApplyOps(G, ri, its, 1, <<>>, [x \in {} |-> 0], [kind |-> G.rules[ri].name, elide |-> FALSE])
@@ -132,7 +134,10 @@ Items(G, u, E, n, i, j) ==
     [] k = "ref" ->
          LET ri == RuleByName(G, G.nodes[n].r)
              b  == G.rules[ri].body
-         IN RuleNode(G, ri, IF b = 0 THEN <<>> ELSE Items(G, u, E, b, i, j))
+         IN IF IsPrattRule(G, ri)
+            THEN LET cs == {t \in PrattTrees(G, u, E, ri, i, j) : ConsistentCand(G, First(G), ri, t)}
+                 IN IF cs = {} THEN <<>> ELSE RuleNode(G, ri, (CHOOSE t \in cs : TRUE).its)
+            ELSE RuleNode(G, ri, IF b = 0 THEN <<>> ELSE Items(G, u, E, b, i, j))
     [] k = "cat" -> CatItems(G, u, E, c, 1, i, j)
     [] k \in {"alt", "oc"} ->
          LET ok == {x \in DOMAIN c : j \in E[c[x]][i]}
@@ -162,6 +167,74 @@ CatItems(G, u, E, cs, x, i, j) ==
            p  == CHOOSE p \in ps : \A q \in ps : p <= q
        IN Items(G, u, E, cs[x], i, p) \o CatItems(G, u, E, cs, x + 1, p, j)
 
+(***************************************************************************)
+(* Left-recursive (Pratt) rules, C07.  The rule is an ambiguous CFG; the   *)
+(* chart enumerates every derivation tree of the operator expression, and  *)
+(* the precedence / associativity rules of the property statement filter   *)
+(* them:  earlier branch binds tighter; one branch groups to the left      *)
+(* unless its operator tokens are declared `right`.  A candidate is        *)
+(*   [br, its, l, r, m]   branch index, items, left / right operand        *)
+(*   candidates (NoCand if the branch has none) and middle operands.       *)
+(***************************************************************************)
+NoCand == [br |-> 0]
+
+BranchOps(G, n) == IF K(G, n) = "cat" THEN C(G, n) ELSE <<n>>
+LeftOperand(G, n, ri)  == IF LeftRec(G, n, ri) THEN Opnds(G, n)[1] ELSE 0
+RightOperand(G, n, ri) == IF RightRec(G, n, ri) THEN Opnds(G, n)[Len(Opnds(G, n))] ELSE 0
+
+PrattTrees(G, u, E, ri, i, j) ==
+  LET brs == C(G, G.rules[ri].body) IN
+  UNION { { [br |-> x, its |-> q.its, l |-> q.l, r |-> q.r, m |-> q.m] :
+            q \in BranchSeqs(G, u, E, ri, BranchOps(G, brs[x]), 1, i, j, i, j,
+                             LeftOperand(G, brs[x], ri), RightOperand(G, brs[x], ri)) }
+          : x \in DOMAIN brs }
+
+\* all ways to derive u[p+1..j] from the operands ops[x..]; (i0, j0) is the extent of the branch
+BranchSeqs(G, u, E, ri, ops, x, p, j, i0, j0, ln, rn) ==
+  IF x > Len(ops) THEN (IF p = j THEN {[its |-> <<>>, l |-> NoCand, r |-> NoCand, m |-> <<>>]} ELSE {})
+  ELSE LET c == ops[x] IN
+    IF IsSelfRef(G, c, ri) THEN
+      UNION { UNION { { [its |-> RuleNode(G, ri, sub.its) \o rest.its,
+                          l |-> IF c = ln THEN sub ELSE rest.l,
+                          r |-> IF c = rn THEN sub ELSE rest.r,
+                          m |-> IF c # ln /\ c # rn THEN <<sub>> \o rest.m ELSE rest.m] :
+                        rest \in BranchSeqs(G, u, E, ri, ops, x + 1, q, j, i0, j0, ln, rn) }
+                      : sub \in PrattTrees(G, u, E, ri, p, q) }
+              : q \in {q \in E[c][p] : q <= j /\ q - p < j0 - i0} }
+    ELSE
+      UNION { { [its |-> Items(G, u, E, c, p, q) \o rest.its, l |-> rest.l, r |-> rest.r, m |-> rest.m] :
+                rest \in BranchSeqs(G, u, E, ri, ops, x + 1, q, j, i0, j0, ln, rn) }
+              : q \in {q \in E[c][p] : q <= j} }
+
+BranchOf(G, ri, x) == C(G, G.rules[ri].body)[x]
+\* a branch groups to the right iff all its operator tokens are declared right-associative
+RightAssoc(G, F, ri, x) ==
+  LET n == BranchOf(G, ri, x) IN
+  /\ LeftRec(G, n, ri) /\ Len(Opnds(G, n)) >= 2
+  /\ LET toks == F[OperatorOf(G, n)] \ {EPS} IN toks # {} /\ toks \subseteq SeqToSet(G.right)
+
+\* every operator on the right edge of T that is open to the right binds tighter than level p
+\* (or is p itself when that is allowed)
+RightSpineOK(G, ri, T, p, allowEq) ==
+  \/ T.br = 0
+  \/ T.r.br = 0
+  \/ /\ (T.br < p \/ (T.br = p /\ allowEq))
+     /\ RightSpineOK(G, ri, T.r, p, allowEq)
+LeftSpineOK(G, ri, T, p, allowEq) ==
+  \/ T.br = 0
+  \/ T.l.br = 0
+  \/ /\ (T.br < p \/ (T.br = p /\ allowEq))
+     /\ LeftSpineOK(G, ri, T.l, p, allowEq)
+
+ConsistentCand(G, F, ri, T) ==
+  \/ T.br = 0
+  \/ LET ra == RightAssoc(G, F, ri, T.br) IN
+     /\ T.l.br # 0 => (RightSpineOK(G, ri, T.l, T.br, ~ra) /\ ConsistentCand(G, F, ri, T.l))
+     /\ T.r.br # 0 => (LeftSpineOK(G, ri, T.r, T.br, ra) /\ ConsistentCand(G, F, ri, T.r))
+     /\ \A k \in DOMAIN T.m : ConsistentCand(G, F, ri, T.m[k])
+
+\* all trees the statement admits for the whole input when the start rule is `s: e` with a
+\* Pratt rule e; otherwise the single tree of DT (nested Pratt references resolved inside Items)
 \* the whole tree for entry point en: the start rule is the root itself; a part is wrapped
 \* in a root of kind "part"
 DT(G, u, en) ==
@@ -174,6 +247,16 @@ DT(G, u, en) ==
      THEN LET res == ApplyOps(G, ri, its, 1, <<>>, [x \in {} |-> 0], [kind |-> nm, elide |-> FALSE])
           IN <<"r", res.kind, res.out>>
      ELSE <<"r", "part", RuleNode(G, ri, its)>>
+
+DTSet(G, u, en) ==
+  LET E  == Ends(G, u)
+      b  == RootNode(G, en)
+  IN IF en = 0 /\ b # 0 /\ K(G, b) = "ref" /\ IsPrattRule(G, RuleByName(G, G.nodes[b].r))
+     THEN LET ri == RuleByName(G, G.nodes[b].r)
+              F  == First(G)
+          IN { <<"r", G.start, RuleNode(G, ri, t.its)>> :
+                 t \in {t \in PrattTrees(G, u, E, ri, 0, Len(u)) : ConsistentCand(G, F, ri, t)} }
+     ELSE {DT(G, u, en)}
 
 RECURSIVE ActsOf(_), ActsOfSeq(_, _), NoActs(_), NoActsSeq(_, _)
 ActsOf(t) == IF t[1] = "@act" THEN <<t[3] \o "_" \o t[2]>> ELSE IF t[1] = "t" THEN <<>> ELSE ActsOfSeq(t[3], 1)
